@@ -136,7 +136,10 @@ func (l *LLC) SerializeTo(b gopacket.SerializeBuffer, opts gopacket.SerializeOpt
 	var igFlag, crFlag byte
 	var length int
 
-	if l.Control&0xFF00 != 0 {
+	// An 8 bit control field is always in U format (low bits 11); any other
+	// value is a 16 bit I or S format field, also when its first byte is 0
+	// (an I frame with N(S) = 0), which is how DecodeFromBytes reads it.
+	if l.Control&0xFF00 != 0 || l.Control&0x3 != 0x3 {
 		length = 4
 	} else {
 		length = 3
